@@ -68,6 +68,36 @@ struct hwloc_synthetic_intlv_loop_s {
   unsigned level_depth;
 };
 
+static int
+hwloc_synthetic_compare_indexes(const void *_a, const void *_b)
+{
+  unsigned a = *(const unsigned *) _a;
+  unsigned b = *(const unsigned *) _b;
+  return a < b ? -1 : a > b ? 1 : 0;
+}
+
+/* return 1 if some index appears twice (or if we cannot check) */
+static int
+hwloc_synthetic_indexes_have_duplicates(const unsigned *array, unsigned long total)
+{
+  unsigned *sorted;
+  unsigned long i;
+  int dup = 0;
+
+  sorted = malloc(total * sizeof(*sorted));
+  if (!sorted)
+    return 1;
+  memcpy(sorted, array, total * sizeof(*sorted));
+  qsort(sorted, total, sizeof(*sorted), hwloc_synthetic_compare_indexes);
+  for(i=1; i<total; i++)
+    if (sorted[i-1] == sorted[i]) {
+      dup = 1;
+      break;
+    }
+  free(sorted);
+  return dup;
+}
+
 static void
 hwloc_synthetic_process_indexes(struct hwloc_synthetic_backend_data_s *data,
 				struct hwloc_synthetic_indexes_s *indexes,
@@ -113,6 +143,11 @@ hwloc_synthetic_process_indexes(struct hwloc_synthetic_backend_data_s *data,
       } else {
 	attr = next;
       }
+    }
+    if (hwloc_synthetic_indexes_have_duplicates(array, total)) {
+      if (verbose)
+	fprintf(stderr, "Invalid duplicate values in synthetic indexes '%s'\n", indexes->string);
+      goto out_with_array;
     }
     indexes->array = array;
 
@@ -318,6 +353,12 @@ hwloc_synthetic_process_indexes(struct hwloc_synthetic_backend_data_s *data,
 	  fprintf(stderr, "Invalid index interleaving generates duplicate index values\n");
 	goto out_with_array;
       }
+    }
+    /* several loops with overlapping strides may still generate duplicates */
+    if (hwloc_synthetic_indexes_have_duplicates(array, total)) {
+      if (verbose)
+	fprintf(stderr, "Invalid index interleaving generates duplicate index values\n");
+      goto out_with_array;
     }
 
     indexes->array = array;
